@@ -13,6 +13,7 @@ use super::{
 };
 use crate::{
     abe_policy::{AccessStructure, Right},
+    bytes_ser_de::read_canonical_leb128_u64,
     core::{MasterPublicKey, MasterSecretKey, UserSecretKey, XEnc, SHARED_SECRET_LENGTH},
     data_struct::{RevisionMap, RevisionVec},
     Error,
@@ -441,9 +442,9 @@ impl Serializable for Encapsulations {
     }
 
     fn read(de: &mut Deserializer) -> Result<Self, Self::Error> {
-        let is_hybridized = de.read_leb128_u64()?;
+        let is_hybridized = read_canonical_leb128_u64(de)?;
         if is_hybridized == 1 {
-            let len = usize::try_from(de.read_leb128_u64()?)?;
+            let len = usize::try_from(read_canonical_leb128_u64(de)?)?;
             let vec = (0..len)
                 .map(|_| {
                     let E = de.read()?;
@@ -453,7 +454,7 @@ impl Serializable for Encapsulations {
                 .collect::<Result<Vec<_>, _>>()?;
             Ok(Self::HEncs(vec))
         } else if 0 == is_hybridized {
-            let len = usize::try_from(de.read_leb128_u64()?)?;
+            let len = usize::try_from(read_canonical_leb128_u64(de)?)?;
             let vec = (0..len)
                 .map(|_| {
                     let F = de.read_array::<SHARED_SECRET_LENGTH>()?;
@@ -491,7 +492,7 @@ impl Serializable for XEnc {
 
     fn read(de: &mut Deserializer) -> Result<Self, Self::Error> {
         let tag = de.read_array::<TAG_LENGTH>()?;
-        let n_traps = <usize>::try_from(de.read_leb128_u64()?)?;
+        let n_traps = <usize>::try_from(read_canonical_leb128_u64(de)?)?;
         let mut traps = Vec::new();
         for _ in 0..n_traps {
             let trap = de.read()?;
